@@ -95,6 +95,10 @@ func convertAttrToField(attr slog.Attr) zapcore.Field {
 	case slog.KindUint64:
 		return zap.Uint64(attr.Key, attr.Value.Uint64())
 	case slog.KindGroup:
+		if len(attr.Value.Group()) == 0 {
+			// Ignore groups without attributes, whatever their key.
+			return zap.Skip()
+		}
 		if attr.Key == "" {
 			// Inlines recursively.
 			return zap.Inline(groupObject(attr.Value.Group()))
